@@ -289,7 +289,7 @@ pub fn finish(prop: &str, tier: &str, seed: u64, scs: &[Scenario], results: Vec<
             "explanation": "states = choice-point nodes visited in the schedule tree; transitions = scheduling steps executed; every trace is an execution of the implementation itself (no separate model), so traces_validated_against_impl = executions",
         },
         "assumptions": [
-            "sequentially consistent interleavings only (no store-buffer / weak-memory reorderings)",
+            "sequentially consistent interleavings; only the scenarios whose cfg says store_buffer additionally let one load overtake one held-back non-SeqCst store of the listed source files (restricted x86-TSO); no other weak-memory reorderings",
             "bounded: 2-5 participants, 1-3 operations each, deviations <= bound per scenario_table",
             "uninstrumented and trusted: generator context switch, crossbeam SegQueue/AtomicCell, std Arc/Once, Linux kernel (determinism checked by fingerprint)",
             "hooks compiled with --cfg may_verif change no behaviour when no engine is installed (repo suite passes with them compiled in)"
@@ -300,6 +300,8 @@ pub fn finish(prop: &str, tier: &str, seed: u64, scs: &[Scenario], results: Vec<
     let _ = std::fs::create_dir_all(format!("{}/evidence", out_dir()));
     let path = format!("{}/evidence/{}.json", out_dir(), prop);
     std::fs::write(&path, serde_json::to_vec_pretty(&ev).unwrap()).unwrap();
+    // the last run of each tier is kept next to it (<id>.json is always the most recent run)
+    let _ = std::fs::write(format!("{}/evidence/{}.{}.json", out_dir(), prop, tier), serde_json::to_vec_pretty(&ev).unwrap());
     println!(
         "{} {}: scenarios={} executions={} states={} transitions={} distinct_signatures={} outcomes={} bound_completed={}..{} exhaustive={} wall={:.1}s",
         prop, tier, results.len(), executions, states, transitions, sigs, outcomes, min_bound, max_bound, exhaustive, wall
